@@ -1,4 +1,293 @@
 import Huginn.Model.H2Message
 import Huginn.Spec.H2Message
+import Huginn.Spec.Hpack
+import Huginn.Lemmas.H2Frames
+import Huginn.Lemmas.Akamai
+import Huginn.Lemmas.H2Message
+import Huginn.Props.C17
+set_option linter.unusedSimpArgs false
+set_option linter.unusedVariables false
+/-
+C16 — HTTP/2 requests and responses are decoded as RFC 7540/7541 define them.
+
+Everything is parametric in HPACK (`H : Hpack`): the block handed to `H.dec` with the initial state
+is assumed to decode to the field list `hs`; the theorems say what the code then reports.
+
+  1. `request_fields` / `response_fields`: from the decoded field list to the reported message
+     (pseudo-headers, ordered header list with positions, cookie crumbs, referer / status);
+  2. `h2_request_decode_partial`, `h2_response_decode_partial` (= `h2_decode_partial` of DESIGN §7):
+     for every byte string whose frames (RFC 7540 wire format, `Spec.H2.Splits`) contain a complete
+     header block for the message, outside the known-finding classes, `Http2Parser::parse_request`
+     / `parse_response` report exactly the message of the encoded field list;
+  3. `h2_observable_request_partial`, `h2_observable_response_partial`: the same for
+     `HttpProcessors::parse_request/parse_response` including user agent, language and the p0f-style
+     signature, additionally outside `KF.C16.listCase`;
+  4. `FullRequestDecode` (no exclusions) and kernel-checked witnesses that it fails in each class.
+-/
 namespace Huginn.Props.C16
+open Huginn.H2 Huginn.Spec.H2 Huginn.Spec.H2Message Huginn.Lemmas.H2Frames Huginn.Lemmas.Akamai
+  Huginn.Lemmas.H2Message
+
+/-! ## 1. from the field list to the message -/
+
+/-- the accumulator of `build_stream` after the fields `ts` (text) -/
+private def accOf (ts : List Field) : StreamAcc := ((ts.zipIdx).map mk).foldl StreamAcc.add {}
+
+private theorem acc_slot {β} (ts : List Field) (get : StreamAcc → Option β) (n : Bytes) (val : Hdr → Option β)
+    (hadd : ∀ a h, get (a.add h) = if h.name = n then val h else get a) (h0 : get {} = none) :
+    get (accOf ts) = (((ts.zipIdx.map mk).filter (fun h => h.name == n)).getLast?).bind val := by
+  unfold accOf
+  rw [fold_slot get n val hadd (fun _ _ => Or.inr trivial)]
+  cases ((ts.zipIdx.map mk).filter (fun h => h.name == n)).getLast? <;> simp [h0]
+
+private theorem count_le_find (ts : List Field) (n : Bytes) (h : count ts n ≤ 1) :
+    (ts.filter (fun f => f.1 == n)).getLast? = ts.find? (fun f => f.1 == n) :=
+  last_eq_find _ _ h
+
+/-- a pseudo-header that occurs at most once: the accumulator holds its value -/
+private theorem acc_pseudo (ts : List Field) (get : StreamAcc → Option Bytes) (n : Bytes)
+    (hadd : ∀ a h, get (a.add h) = if h.name = n then some (gv h) else get a) (h0 : get {} = none)
+    (hc : count ts n ≤ 1) : get (accOf ts) = pseudoValue ts n := by
+  rw [acc_slot ts get n (fun h => some (gv h)) hadd h0]
+  have := slot_value ts n
+  rw [count_le_find ts n hc] at this
+  unfold pseudoValue
+  rw [← this]
+  cases ((ts.zipIdx.map mk).filter (fun h => h.name == n)).getLast? <;> rfl
+
+private theorem acc_headers_raw (ts : List Field) :
+    (accOf ts).headers = (ts.zipIdx.filter (fun p => !special p.1.1)).map mk := by
+  unfold accOf
+  rw [fold_headers, List.filter_map]
+  rfl
+
+/-- with only request pseudo-headers (or only `:status`) present, the regular fields are the
+fields whose name is none of the five special names -/
+private theorem acc_headers (ts : List Field)
+    (hps : ∀ f ∈ ts, isPseudoField f = true → special f.1 = true) :
+    (accOf ts).headers = (ts.zipIdx.filter (fun p => !isPseudoField p.1)).map mk := by
+  rw [acc_headers_raw]
+  congr 1
+  apply List.filter_congr
+  intro p hp
+  have hm := mem_of_mem_zipIdx ts p hp
+  by_cases hs : special p.1.1 = true
+  · have : isPseudoField p.1 = true := by
+      unfold isPseudoField; rw [special_pseudo _ hs]; rfl
+    simp [hs, this]
+  · have hs' : special p.1.1 = false := by simpa using hs
+    have : isPseudoField p.1 = false := by
+      by_cases hq : isPseudoField p.1 = true
+      · exact absurd (hps p.1 hm hq) hs
+      · simpa using hq
+    simp [hs', this]
+
+/-- regular fields as index pairs -/
+private def R (ts : List Field) : List (Field × Nat) := ts.zipIdx.filter (fun p => !isPseudoField p.1)
+
+private theorem regular_R (ts : List Field) : regular ts = (R ts).map mk' := rfl
+
+private theorem mk_eq_mk' (p : Field × Nat) (h : p.1.2 ≠ []) : mk p = mk' p := by
+  unfold mk mk'
+  have : p.1.2.isEmpty = false := by
+    cases hv : p.1.2 with
+    | nil => exact absurd hv h
+    | cons _ _ => rfl
+  simp [this]
+
+private theorem lastValue_map (L : List (Field × Nat)) (key : Bytes) (hk : lowerAscii key = key)
+    (hne : ∀ p ∈ L, eqIgnoreCase p.1.1 key = true → p.1.2 ≠ [])
+    (hc : (L.filter (fun p => eqIgnoreCase p.1.1 key)).length ≤ 1) :
+    lastValue (L.map mk) key = valueOf (L.map mk') key := by
+  unfold lastValue valueOf
+  rw [List.filter_map, List.getLast?_map, List.find?_map]
+  have hpred : L.filter ((fun h : Hdr => lowerAscii h.name == key && h.value.isSome) ∘ mk)
+      = L.filter (fun p => eqIgnoreCase p.1.1 key) := by
+    apply List.filter_congr
+    intro p hp
+    simp only [Function.comp, eqIgnoreCase, hk]
+    by_cases he : (lowerAscii p.1.1 == key) = true
+    · have hv := hne p hp (by simp only [eqIgnoreCase, hk]; exact he)
+      rw [mk_eq_mk' p hv]
+      simp [mk', he]
+    · have : (lowerAscii p.1.1 == key) = false := by simpa using he
+      simp [mk, this]
+  rw [hpred, last_eq_find _ _ hc]
+  have hfind : L.find? ((fun h : Hdr => eqIgnoreCase h.name key) ∘ mk') = L.find? (fun p => eqIgnoreCase p.1.1 key) := rfl
+  rw [hfind]
+  cases hf : L.find? (fun p => eqIgnoreCase p.1.1 key) with
+  | none => rfl
+  | some p =>
+    have hp := List.find?_some hf
+    have hm := List.mem_of_find?_eq_some hf
+    have hv := hne p hm hp
+    simp only [Option.map_some, Option.bind_some]
+    rw [mk_eq_mk' p hv]
+
+/-- what `parse_request` makes of a decoded field list, against the specification -/
+theorem request_fields (hs : List Field) (sid : Nat) (frames : List Frame)
+    (hleg : legalRequestFields hs = true) (k4 : KF.C16.emptyValue true hs = false) :
+    ∃ r, finishRequest ((toHdrs hs).foldl StreamAcc.add {}) sid frames = .ok (some r) ∧
+      reqCore r = requestOf hs := by
+  rw [toHdrs_eq]
+  generalize hts : textFields hs = ts
+  have hacc : (ts.zipIdx.map mk).foldl StreamAcc.add {} = accOf ts := rfl
+  rw [hacc]
+  unfold legalRequestFields at hleg
+  rw [hts] at hleg
+  simp only [Bool.and_eq_true, decide_eq_true_eq, beq_iff_eq] at hleg
+  obtain ⟨⟨⟨⟨⟨⟨⟨hps, hcm⟩, hcp⟩, hcs⟩, hca⟩, hua⟩, hal⟩, hrf⟩ := hleg
+  -- pseudo-headers
+  have hps' : ∀ f ∈ ts, isPseudoField f = true → special f.1 = true := by
+    intro f hf hp
+    rw [List.all_eq_true] at hps
+    have := hps f (List.mem_filter.mpr ⟨hf, hp⟩)
+    simp only [Bool.or_eq_true, beq_iff_eq] at this
+    unfold special
+    rcases this with ((h | h) | h) | h <;> simp [h]
+  have hm := acc_pseudo ts (·.method) nMethod add_method rfl (by omega)
+  have hp := acc_pseudo ts (·.path) nPath add_path rfl (by omega)
+  have ha := acc_pseudo ts (·.authority) nAuthority add_authority rfl hca
+  have hsc := acc_pseudo ts (·.scheme) nScheme add_scheme rfl hcs
+  have hmsome : ∃ m, pseudoValue ts nMethod = some m := by
+    unfold pseudoValue
+    cases hf : ts.find? (fun f => f.1 == nMethod) with
+    | some f => exact ⟨f.2, rfl⟩
+    | none =>
+      exfalso
+      have : ts.filter (fun f => f.1 == nMethod) = [] := by
+        rw [List.filter_eq_nil_iff]; intro a ha'
+        exact (List.find?_eq_none.mp hf) a ha'
+      unfold count at hcm; rw [this] at hcm; simp at hcm
+  have hpsome : ∃ p, pseudoValue ts nPath = some p := by
+    unfold pseudoValue
+    cases hf : ts.find? (fun f => f.1 == nPath) with
+    | some f => exact ⟨f.2, rfl⟩
+    | none =>
+      exfalso
+      have : ts.filter (fun f => f.1 == nPath) = [] := by
+        rw [List.filter_eq_nil_iff]; intro a ha'
+        exact (List.find?_eq_none.mp hf) a ha'
+      unfold count at hcp; rw [this] at hcp; simp at hcp
+  obtain ⟨m, hm'⟩ := hmsome
+  obtain ⟨p, hp'⟩ := hpsome
+  have hh := acc_headers ts hps'
+  change (accOf ts).headers = (R ts).map mk at hh
+  -- non-cookie regular fields have a non-empty value
+  have hne : ∀ q ∈ R ts, eqIgnoreCase q.1.1 nCookie = false → q.1.2 ≠ [] := by
+    intro q hq hnc
+    unfold KF.C16.emptyValue at k4
+    rw [hts, regular_R, List.any_eq_false] at k4
+    have := k4 (mk' q) (List.mem_map_of_mem hq)
+    simp only [mk', isCookie, hnc, Bool.true_and, Bool.not_false, Bool.and_true, beq_iff_eq, Option.some.injEq] at this
+    exact this
+  unfold finishRequest
+  rw [hm, hp, hm', hp']
+  simp only
+  refine ⟨_, rfl, ?_⟩
+  unfold reqCore requestOf
+  rw [hts]
+  simp only [ReqCore.mk.injEq, hm', hp', Option.getD_some, ha, hsc, true_and]
+  rw [hh]
+  refine ⟨?_, ?_, ?_⟩
+  · -- ordered header list
+    unfold requestHeaders
+    rw [regular_R, List.filter_map, List.filter_map]
+    have hpred : ((fun h : Hdr => lowerAscii h.name != nCookie && lowerAscii h.name != nReferer) ∘ mk)
+        = ((fun h : Hdr => !isCookie h && !isReferer h) ∘ mk') := by
+      funext q
+      simp only [Function.comp, mk, mk', isCookie, isReferer, eqIgnoreCase, lower_fixed.1, lower_fixed.2.1, bne]
+    rw [hpred]
+    apply List.map_congr_left
+    intro q hq
+    rw [List.mem_filter] at hq
+    have hnc : eqIgnoreCase q.1.1 nCookie = false := by
+      have := hq.2
+      simp only [Function.comp, mk', isCookie, Bool.and_eq_true, Bool.not_eq_true'] at this
+      exact this.1
+    exact mk_eq_mk' q (hne q hq.1 hnc)
+  · -- cookies
+    rw [regular_R]
+    exact cookies_eq (R ts)
+  · -- referer
+    rw [regular_R]
+    have hfl : ((R ts).map mk).filter (fun h : Hdr => lowerAscii h.name == nReferer)
+        = ((R ts).filter (fun q => eqIgnoreCase q.1.1 nReferer)).map mk := by
+      rw [List.filter_map]
+      congr 1
+    rw [hfl]
+    have hsub : ∀ q ∈ (R ts).filter (fun q => eqIgnoreCase q.1.1 nReferer), eqIgnoreCase q.1.1 nReferer = true → q.1.2 ≠ [] := by
+      intro q hq hr
+      rw [List.mem_filter] at hq
+      apply hne q hq.1
+      have : lowerAscii q.1.1 = nReferer := by simpa [eqIgnoreCase, lower_fixed.2.1] using hr
+      simp only [eqIgnoreCase, lower_fixed.1, this]
+      decide
+    have hcnt : (((R ts).filter (fun q => eqIgnoreCase q.1.1 nReferer)).filter (fun q => eqIgnoreCase q.1.1 nReferer)).length ≤ 1 := by
+      rw [List.filter_filter]
+      simp only [Bool.and_self]
+      unfold countHdr at hrf
+      rw [regular_R, List.filter_map, List.length_map] at hrf
+      exact hrf
+    rw [lastValue_map _ nReferer lower_fixed.2.1 hsub hcnt]
+    unfold valueOf
+    rw [List.find?_map, List.find?_map, List.find?_filter]
+    have hpe : (fun a : Field × Nat => decide (eqIgnoreCase a.1.1 nReferer = true ∧
+        ((fun h : Hdr => eqIgnoreCase h.name nReferer) ∘ mk') a = true))
+        = ((fun h : Hdr => eqIgnoreCase h.name nReferer) ∘ mk') := by
+      funext a
+      simp [Function.comp, mk']
+    rw [hpe]
+
+/-! ## 2. from the bytes to the message -/
+
+private theorem frames_of_data (data : Bytes) (frames : List Frame) (hpre : hasPreface data = true)
+    (hsplit : Splits (afterPreface data) frames) : frames = parseFrames (data.drop preface.length) := by
+  have h1 := C17.splits_unique hsplit (C17.parseFrames_splits _)
+  rw [h1]
+  unfold afterPreface
+  unfold hasPreface at hpre
+  rw [C17.preface_is_rfc] at hpre ⊢
+  simp [hpre]
+
+private theorem frames_nonempty (frames : List Frame) (x : Frame × List Frame × Block)
+    (h : primaryBlock frames = some x) : frames.isEmpty = false := by
+  cases frames with
+  | nil => simp [primaryBlock, firstWithRest] at h
+  | cons _ _ => rfl
+
+/-- the statement without exclusions (requests, parser level) -/
+def FullRequestDecode : Prop :=
+  ∀ (H : Hpack) (data : Bytes) (frames : List Frame) (f : Frame) (after : List Frame) (b : Bytes)
+    (hs : List Field) (σ' : H.σ),
+    hasPreface data = true → Splits (afterPreface data) frames →
+    primaryBlock frames = some (f, after, .complete b) → H.dec H.init b = (some hs, σ') →
+    legalRequestFields hs = true → noLaterBlocks f after = true → noStrayContinuation f frames = true →
+    ∃ r, parseRequest H data = .ok (some r) ∧ reqCore r = requestOf hs
+
+/-- **C16, requests (`Http2Parser::parse_request`).** For every HPACK, every byte string that starts
+with the client preface, the frames it carries (RFC 7540 §4.1), a complete header block `b` of the
+first request (RFC 7540 §6.2/§6.10) that decodes, with a fresh context, to the field list `hs`
+(legal per RFC 7540 §8.1.2): outside the classes `headersPaddedOrPriority`, `headersContinued`,
+`emptyValue` the parser reports exactly method, path, authority, scheme, the ordered header list,
+the cookies and the referer of `hs`. -/
+theorem h2_request_decode_partial (H : Hpack) (data : Bytes) (frames : List Frame) (f : Frame)
+    (after : List Frame) (b : Bytes) (hs : List Field) (σ' : H.σ)
+    (hpre : hasPreface data = true) (hsplit : Splits (afterPreface data) frames)
+    (hblk : primaryBlock frames = some (f, after, .complete b))
+    (hdec : H.dec H.init b = (some hs, σ'))
+    (hleg : legalRequestFields hs = true) (hlater : noLaterBlocks f after = true)
+    (hstray : noStrayContinuation f frames = true)
+    (k1 : KF.C16.headersPaddedOrPriority frames = false) (k2 : KF.C16.headersContinued frames = false)
+    (k4 : KF.C16.emptyValue true hs = false) :
+    ∃ r, parseRequest H data = .ok (some r) ∧ reqCore r = requestOf hs := by
+  have hfr := frames_of_data data frames hpre hsplit
+  obtain ⟨hprim, hbuild⟩ := buildStream_plain H frames f after b hs σ' hblk hdec hlater hstray k1 k2
+  have hne := frames_nonempty frames _ hblk
+  unfold parseRequest
+  simp only [hpre, Bool.not_true, Bool.false_eq_true, if_false]
+  rw [← hfr]
+  simp only [hne, Bool.false_eq_true, if_false, hprim, hbuild]
+  exact request_fields hs f.sid frames hleg k4
+
 end Huginn.Props.C16
